@@ -112,6 +112,14 @@ type Node struct {
 	Op   string  `json:"op"`
 	Name string  `json:"name,omitempty"`
 	Kids []*Node `json:"kids,omitempty"`
+	// Spell: for a "num" leaf, the spelling to print (Name stays the canonical
+	// text of the value it denotes, e.g. Spell "0x1e", Name "30").
+	Spell string `json:"spell,omitempty"`
+	// Tight: print this binary operator without blanks around it in the
+	// minimal spelling (the explicit spelling always has blanks).
+	Tight bool `json:"tight,omitempty"`
+	// Fixed: an identifier whose Name is part of the case (not re-assigned by nameLeaves).
+	Fixed bool `json:"fixed,omitempty"`
 }
 
 func (n *Node) info() *opInfo {
@@ -122,7 +130,7 @@ func (n *Node) info() *opInfo {
 }
 
 func (n *Node) clone() *Node {
-	c := &Node{Op: n.Op, Name: n.Name}
+	c := &Node{Op: n.Op, Name: n.Name, Spell: n.Spell, Tight: n.Tight, Fixed: n.Fixed}
 	if len(n.Kids) > 0 {
 		c.Kids = make([]*Node, len(n.Kids))
 		for i, k := range n.Kids {
@@ -179,6 +187,9 @@ func (n *Node) sexpr() string {
 	case "id":
 		return n.Name
 	case "num":
+		if n.Spell != "" && n.Spell != n.Name {
+			return "#" + n.Name + "{" + n.Spell + "}"
+		}
 		return "#" + n.Name
 	case "str":
 		return strconv.Quote(n.Name)
@@ -258,7 +269,12 @@ func needParen(p *opInfo, i int, c *opInfo) bool {
 // literal entries, case heads): a ternary is parenthesised there.
 func render(n *Node, full bool, colon bool) string {
 	switch n.Op {
-	case "id", "num":
+	case "id":
+		return n.Name
+	case "num":
+		if n.Spell != "" {
+			return n.Spell
+		}
 		return n.Name
 	case "str":
 		return quoteDQ(n.Name)
@@ -291,7 +307,11 @@ func renderBody(n *Node, info *opInfo, full, colon bool) string {
 	}
 	switch info.Kind {
 	case kBinary:
-		return renderKid(n, info, 0, full, colon) + " " + info.Sym + " " + renderKid(n, info, 1, full, colon)
+		l, r := renderKid(n, info, 0, full, colon), renderKid(n, info, 1, full, colon)
+		if n.Tight && !full && info.Op != "in" {
+			return l + info.Sym + tightGap(info.Sym, r) + r
+		}
+		return l + " " + info.Sym + " " + r
 	case kTernary:
 		return renderKid(n, info, 0, full, false) + " ? " + renderKid(n, info, 1, full, false) + " : " + renderKid(n, info, 2, full, false)
 	case kUnary:
@@ -331,6 +351,25 @@ func renderBody(n *Node, info *opInfo, full, colon bool) string {
 		}
 	}
 	return "<?" + n.Op + "?>"
+}
+
+// tightGap: the blank that must stay between an operator and its right
+// operand because the two would otherwise spell another token of the language
+// ("--", "<-", "&&", "//", "/*").
+func tightGap(sym, right string) string {
+	if right == "" {
+		return ""
+	}
+	last, first := sym[len(sym)-1], right[0]
+	switch {
+	case first == '-' && (last == '-' || sym == "<"):
+		return " "
+	case first == '&' && last == '&':
+		return " "
+	case sym == "/" && (first == '*' || first == '/'):
+		return " "
+	}
+	return ""
 }
 
 func quoteDQ(s string) string {
@@ -440,11 +479,18 @@ func nameLeaves(root *Node) []string {
 	walk = func(n *Node, r role) {
 		switch n.Op {
 		case "id":
+			if n.Fixed {
+				names = append(names, n.Name)
+				return
+			}
 			n.Name = leafName(r, cnt[r])
 			cnt[r]++
 			names = append(names, n.Name)
 			return
 		case "num":
+			if n.Spell != "" {
+				return // a spelled literal keeps its value
+			}
 			nNum++
 			n.Name = strconv.Itoa(nNum)
 			return
